@@ -46,6 +46,7 @@ Definition const_ok (l : sleaf) : Prop :=
   | LfInt true _ => False                  (* written '- 5': the recorded gap *)
   | LfBool _ | LfStr _ => True
   | LfName _ => False                      (* no constant *)
+  | LfReal _ _ _ | LfTInt _ _ _ | LfBits _ _ => False      (* not among the spelled constants of declarations (yet) *)
   end.
 Definition init_ok (c : dclass) (i : dinit) : Prop :=
   match c with
@@ -66,7 +67,7 @@ Definition ditem_ok (d : ditem) : Prop :=
 
 Lemma const_sp_spec l : const_ok l -> wf_c token tok_class (const_sp l) /\ erase_c token t_text tok_num (const_sp l) = l.
 Proof.
-  destruct l as [[|] v|b|c|n]; cbn [const_ok]; try contradiction.
+  destruct l as [[|] v|b|c|ty sg lit|k neg v|k v|n]; cbn [const_ok]; try contradiction.
   - intro Hv. destruct (int_tok_ok v Hv) as (Hc & Hn). cbn [const_sp wf_c erase_c]. split; [exact Hc|]. unfold leaf_of. rewrite Hn. reflexivity.
   - intros _. cbn [const_sp wf_c erase_c]. split; [|reflexivity]. destruct b; repeat split; reflexivity.
   - intros _. cbn [const_sp wf_c erase_c]. split; [apply str_tok_class | apply str_tok_leaf].
